@@ -549,6 +549,12 @@ func TestVerifC05CLI(t *testing.T) {
 			if bits&1 != 0 {
 				fl = append(fl, "MF")
 			}
+			// a name may be written more than once: it still sets its own bit, once
+			if len(fl) > 0 && rng.Intn(3) == 0 {
+				for k := 1 + rng.Intn(3); k > 0; k-- {
+					fl = append(fl, fl[rng.Intn(len(fl))])
+				}
+			}
 			rng.Shuffle(len(fl), func(a, b int) { fl[a], fl[b] = fl[b], fl[a] })
 			w.IPFlags = uint8(bits)
 			add("--ipflags", strings.Join(fl, ","))
